@@ -28,7 +28,7 @@ def group_spread(mesh):
         ref = X[nodes] if gc.shape[0] == nodes.size else X
         if gc.shape == ref.shape and gc.size:
             sp = max(sp, float(np.abs(gc - ref).max()))
-    return sp
+    return sp / max(float(np.abs(X).max()), 1e-300)       # relative to the coordinate magnitude
 
 
 def apply_moves(mesh, moves):
@@ -43,6 +43,8 @@ def apply_moves(mesh, moves):
             mesh.Rotate(mv[1], mesh.center, tuple(mv[2]))
         elif mv[0] == "mirror":
             mesh.Symmetry(mesh.center, tuple(mv[1]))
+        elif mv[0] == "scale":
+            mesh.coord = np.asarray(mesh.coord, dtype=float) * float(mv[1])
         elif mv[0] == "coord":
             mesh.coord = np.asarray(mesh.coord, dtype=float) @ np.asarray(mv[1], dtype=float).T
         else:
@@ -170,12 +172,30 @@ def run_elastic(case, mesh):
     if case.get("queries"):
         pre["queries_log"] = readonly_queries(mesh, rs)
     simu = Simulations.Elastic(mesh, mat)
-    A = rs.uniform(-1, 1, (dim, dim)) * 1e-2
-    c = rs.uniform(-1, 1, dim) * 1e-2
     X = np.asarray(mesh.coord, dtype=float)[:, :dim]
+    Lc = float(np.ptp(X, axis=0).max())
+    # homogeneous in the length unit: dimensionless gradient, offset proportional to the size of the part
+    A = rs.uniform(-1, 1, (dim, dim)) * 1e-2
+    c = rs.uniform(-1, 1, dim) * 1e-2 * Lc
     U = X @ A.T + c
     bn = boundary_nodes(mesh)
     unk = simu.Get_unknowns()
+    if case.get("assemble_only"):
+        used = np.unique(np.concatenate([np.asarray(g.connect).ravel() for g in mesh.Get_list_groupElem()]))
+        interior = np.setdiff1d(used, bn)
+        K = simu.Get_K_C_M_F()[0]
+        r = K @ U.ravel()
+        idof = (interior[:, None] * dim + np.arange(dim)[None, :]).ravel()
+        eps = (A + A.T) / 2
+        cm = 1 / np.sqrt(2)
+        e = np.array([eps[0, 0], eps[1, 1], 2 * cm * eps[0, 1]]) if dim == 2 else \
+            np.array([eps[0, 0], eps[1, 1], eps[2, 2], 2 * cm * eps[1, 2], 2 * cm * eps[0, 2], 2 * cm * eps[0, 1]])
+        C = np.asarray(mat.C, dtype=float)
+        th = float(mat.thickness) if dim == 2 else 1.0
+        return {"Nn": int(mesh.Nn), "Ne": int(mesh.Ne), "dim": dim, "n_interior": int(interior.size), "n_boundary": int(bn.size),
+                "assemble_only": True, "ndof": int(mesh.Nn * dim), "pre": pre, "scale_u": float(np.abs(U).max()), "err_u_interior": 0.0,
+                "residual_interior": float(np.abs(r[idof]).max()), "residual_scale": float(np.abs(K).max() * np.abs(U).max()),
+                "energy": float(U.ravel() @ r), "energy_exact": float(th * measure_of(mesh) * (e @ C @ e))}
     simu.add_dirichlet(bn, [U[bn, m] for m in range(dim)], unk)
     u = np.asarray(simu.Solve(), dtype=float).reshape(-1, dim)
     used = np.unique(np.concatenate([np.asarray(g.connect).ravel() for g in mesh.Get_list_groupElem()]))
@@ -288,14 +308,22 @@ def run_thermal(case, mesh):
     if case.get("queries"):
         pre["queries_log"] = readonly_queries(mesh, rs)
     simu = Simulations.Thermal(mesh, Models.Thermal(k=p["k"], c=p["c"], thickness=p.get("thickness", 1.0)))
-    a = rs.uniform(-1, 1, dim)
-    X = np.asarray(mesh.coord, dtype=float)[:, :dim]
-    T = X @ a + 0.37
-    bn = boundary_nodes(mesh)
-    simu.add_dirichlet(bn, [T[bn]], ["t"])
-    t = np.asarray(simu.Solve(), dtype=float).ravel()
+    X3 = np.asarray(mesh.coord, dtype=float)
+    Lc = float(np.ptp(X3, axis=0).max())
+    a3 = np.zeros(3)
+    a3[:dim] = rs.uniform(-1, 1, dim)
+    if case.get("embed") is not None:        # gradient lying in the embedded element plane / line
+        a3 = np.asarray(case["embed"]["R"], dtype=float) @ a3
+    # temperature varies by O(1) over the part whatever the length unit
+    T = (X3 - X3.mean(axis=0)) @ (a3 / Lc) + 0.37
+    bn = np.asarray(case["_boundary"], dtype=int) if case.get("_boundary") is not None else boundary_nodes(mesh)
     used = np.unique(np.concatenate([np.asarray(g.connect).ravel() for g in mesh.Get_list_groupElem()]))
     interior = np.setdiff1d(used, bn)
+    if case.get("assemble_only"):
+        t = T.copy()                     # no solve: only the assembled operator is examined (residual below)
+    else:
+        simu.add_dirichlet(bn, [T[bn]], ["t"])
+        t = np.asarray(simu.Solve(), dtype=float).ravel()
     K = simu.Get_K_C_M_F()[0]
     r = K @ T
     return {"Nn": int(mesh.Nn), "Ne": int(mesh.Ne), "dim": dim, "n_interior": int(interior.size), "n_boundary": int(bn.size),
@@ -304,7 +332,9 @@ def run_thermal(case, mesh):
             "err_u_interior": float(np.abs(t[interior] - T[interior]).max()) if interior.size else 0.0,
             "err_u_all": float(np.abs(t[used] - T[used]).max()),
             "residual_interior": float(np.abs(r[interior]).max()) if interior.size else 0.0,
-            "residual_scale": float(np.abs(K).max() * np.abs(T).max())}
+            "residual_scale": float(np.abs(K).max() * np.abs(T).max()),
+            "energy": float(T @ r), "energy_exact": float(p["k"] * (a3 @ a3) / Lc**2 * measure_of(mesh) * (p.get("thickness", 1.0) if dim == 2 else 1.0)),
+            "inDim": int(mesh.inDim)}
 
 
 def run_beam(case):
@@ -327,14 +357,22 @@ def run_beam(case):
     kw = {} if case.get("yAxis") is None else {"yAxis": tuple(case["yAxis"])}
     beam = Models.Beam.Isotropic(bd, line, section, case["E"], case["v"], **kw)
     mesh = mesher.Mesh_Beams([beam], elemType=getattr(ElemType, case["elem"]))
+    sc = float(case.get("scale") or 1.0)
+    if sc != 1.0:
+        # scaled twin: mesh and cross-section converted to another length unit through the coordinate setters
+        mesh.coord = np.asarray(mesh.coord, dtype=float) * sc
+        section.coord = np.asarray(section.coord, dtype=float) * sc
+        beam.section = section            # re-assign: area and second moments follow the new unit
+        p1, L = p1 * sc, L * sc
     simu = Simulations.Beam(mesh, Models.Beam.BeamStructure([beam]), useTimoshenko=case["timo"], verbosity=False)
     mesh = simu.mesh
     P = np.asarray(beam._Calc_P(), dtype=float)            # columns: local axes i, j, k in global coordinates
     X = np.asarray(mesh.coord, dtype=float)
     x = (X - p1) @ P[:, 0]
-    e0, kz = case["axial"], case["curv"]
-    ky = case.get("curv_y", 0.0) if bd == 3 else 0.0
-    t0 = case.get("twist", 0.0) if bd == 3 else 0.0
+    # curvatures and twist rate are per unit length: the dimensionless kappa*L is kept
+    e0, kz = case["axial"], case["curv"] / sc
+    ky = (case.get("curv_y", 0.0) / sc) if bd == 3 else 0.0
+    t0 = (case.get("twist", 0.0) / sc) if bd == 3 else 0.0
     if bd == 1:
         kz = 0.0
     ul = np.stack([e0 * x, kz * x**2 / 2, ky * x**2 / 2], axis=1)
@@ -348,6 +386,10 @@ def run_beam(case):
     used = np.unique(mesh.connect)
     err = {u: float(np.abs(sol[used, i] - exact[u][used]).max()) for i, u in enumerate(unk)}
     scale = max(abs(e0) * L, abs(kz) * L * L / 2, abs(ky) * L * L / 2, abs(t0) * L, 1e-300)
+    # unit-free errors: translations relative to the largest translation, rotations to the largest rotation
+    s_t = max([float(np.abs(exact[u][used]).max()) for u in unk if not u.startswith("r")] + [1e-300])
+    s_r = max([float(np.abs(exact[u][used]).max()) for u in unk if u.startswith("r")] + [s_t / L])
+    err_rel = {u: err[u] / (s_r if u.startswith("r") else s_t) for u in unk}
     # reported constants (signed, except the bending-about-y pair whose sign convention is the library's)
     E_, nu = case["E"], case["v"]
     mu = E_ / (2 * (1 + nu))
@@ -375,14 +417,40 @@ def run_beam(case):
         if nm in avail:
             v = np.asarray(simu.Result(nm, nodeValues=False), dtype=float)
             post[nm] = float(np.abs(v).max() / fscale)
-    return {"Nn": int(mesh.Nn), "Ne": int(mesh.Ne), "unknowns": unk, "err": err, "scale": scale, "post": post,
+    return {"Nn": int(mesh.Nn), "Ne": int(mesh.Ne), "unknowns": unk, "err": err, "err_rel": err_rel, "scale": scale, "post": post,
             "n_interior": int(used.size - 2), "L": L}
+
+
+def grid_mesh(case):
+    """hand-built non-uniform grid (corr.C02_impl.grid_data), optionally embedded in 3-D by a rigid motion and
+    converted to another length unit through the coordinate setter; boundary = boundary of the reference grid"""
+    from EasyFEA.FEM import Mesh
+    from EasyFEA.FEM._group_elem import GroupElemFactory
+    from EasyFEA.FEM._utils import ElemType
+    from corr.C02_impl import grid_data
+    X, conn, meas = grid_data(case)
+    Xref, _, _ = grid_data(dict(case, embed=None))
+    et = getattr(ElemType, case["elem"])
+    mesh = Mesh({et: GroupElemFactory.Create(et, conn, X)})
+    if case.get("scale") is not None:
+        mesh.coord = np.asarray(mesh.coord, dtype=float) * float(case["scale"])
+    dim = mesh.dim
+    lo, hi = Xref[:, :dim].min(axis=0), Xref[:, :dim].max(axis=0)
+    tol = 1e-12 * float((hi - lo).max())
+    onb = np.zeros(Xref.shape[0], dtype=bool)
+    for d in range(dim):
+        onb |= (np.abs(Xref[:, d] - lo[d]) <= tol) | (np.abs(Xref[:, d] - hi[d]) <= tol)
+    return mesh, np.nonzero(onb)[0]
 
 
 def run_case(case):
     try:
         if case["kind"] == "beam":
             return run_beam(case)
+        if case["kind"] == "grid":
+            mesh, bn = grid_mesh(case)
+            case = dict(case, _boundary=bn.tolist())
+            return run_thermal(case, mesh)
         mesh = mixed_mesh(case) if case["kind"] == "mixed" else gmsh_mesh(case)
         return run_elastic(case, mesh) if case["phys"] == "elastic" else run_thermal(case, mesh)
     except Exception as ex:
